@@ -228,13 +228,16 @@ PROPS["C12"] = dict(
          "compaction runs with flush thresholds 1, 2, 3, 100000 in between; after every op all read APIs (listing, full and latest-only feeds, lookups now and pinned, both query "
          "directions) — the model runs its own compaction, so before/after equality and the exact feed are both checked; about a third of the compactions run in a child process that is "
          "killed right after its n-th flush transaction (crash point inserted by tools/instr into flushDeletes) or before the first: after the restart listing, latest-only feed and lookups must "
-         "answer as before the compaction, the full feed must be readable and have lost nothing but entries, and a second compaction run finishes the job; non-trivial = at least 3 versions and 2 queries",
+         "answer as before the compaction, the full feed must be readable and have lost nothing but entries, and a second compaction run finishes the job; another third run with a writer forced between the compactor's snapshot and its n-th flush (an in-process callback at the crash point at the entry of flushDeletes stores a batch, "
+         "usually containing a new version of an entity whose newest version is a legacy duplicate): afterwards every read must show the writer's versions and nothing else must have changed; non-trivial = at least 3 versions and 2 queries",
     trusted=STORE_TRUST,
-    assumptions=["writers racing the compactor are not exercised (D14: compaction rewrites latest pointers without the dataset lock)"],
+    assumptions=["a writer racing the compactor is scheduled at flush boundaries (one batch between snapshot and n-th flush); interleavings inside a badger transaction are badger's"],
     level_text="Proof (spec level): removing every version whose content equals the version kept before it preserves the content of the latest version (latest_preserved) and of the "
                "latest version of every prefix of the history, i.e. of every pinned lookup (pinned_preserved); what remains is an order-preserving sublist without adjacent duplicates "
                "(feed_sublist, no_adjacent_dups). The key-level model of the compactor (version, change-log, latest-pointer and reference keys) is compared with the real compactor "
-               "on histories with injected duplicates for all flush thresholds, including compactors killed between flushes; its eval/flush shape is a regenerated fact. PARTIAL for racing writers (finding D14); "
+               "on histories with injected duplicates for all flush thresholds, including compactors killed between flushes; its eval/flush shape is a regenerated fact. A writer racing the compactor: what is left of snapshot-history ++ writer's versions has lost nothing but versions, shows the same latest and pinned content and compacts to the same "
+               "result (racing_writer_invisible), and a guarded flush never moves the latest pointer of an entity written since the snapshot (raced_pointer_written, key level; the guard is the regenerated fact "
+               "rewriteLoop — its absence was defect D14, fixed); "
                "a compaction killed after any subset of its removals has lost nothing but versions, shows the same latest and pinned content and is completed by a second run to exactly the "
                "undisturbed result (partial_compaction_invisible, spec level), and the real compactor is killed after its n-th flush in the fault runs.",
     level_note="Trusted: Lean kernel, factgen, badger. `recorded` of a removed duplicate is replaced by its identical predecessor's and is not compared.",
@@ -260,7 +263,8 @@ PROPS["C20"] = dict(
     modules=["Hub.Props.C20"],
     gens=["store-c20"],
     rule=STORE_RULE + "with native backups taken at random points (the real BackupManager.DoNativeBackup into a fresh or existing backup directory, incremental since the stored cursor), more "
-         "writes after the backup, and a restore of the backup files into an empty store whose complete observable state is compared with the model's snapshot at the backup instant; "
+         "writes after the backup, and a restore of the backup files into an empty store whose complete observable state is compared with the model's snapshot at the backup instant; half of the histories also hold a backup run open "
+         "(the backup file is a named pipe with a one-page buffer, the run blocks in the middle of its dump) while 1-3 batches commit, let it finish, take a quiet run and compare the restored hub with the source at the quiet run's start; "
          "non-trivial = a backup after at least one write, followed by at least one more write",
     trusted=STORE_TRUST + ["badger's Stream backup/Load (kv stream with versions) — modelled as an append-only list of (key,value,version) records"],
     assumptions=["rsync backups copy badger's files while open and are out of scope of the model"],
